@@ -39,6 +39,9 @@ def dn():
 # ----------------------------------------------------------------------------------------------------------
 # id families
 # ----------------------------------------------------------------------------------------------------------
+SYM = ['0', '+', '-', 't', '', 'None', '#', ' ']
+
+
 class Ids:
     def __init__(self, family='int'):
         self.family = family
@@ -49,6 +52,8 @@ class Ids:
             return i
         if f == 'str':
             return 'n%03d' % i if i >= 0 else 'm%03d' % (-i)
+        if f == 'sym':        # strings that also occur as markers inside the library ('+', '-', 't', '', 'None')
+            return SYM[i] if 0 <= i < len(SYM) else ('s%d' % i if i >= 0 else 'S%d' % (-i))
         if f == 'us':         # text with the character the path algorithms use as a separator in DAG node names
             return 'a_n_%03d' % i if i >= 0 else 'a_m_%03d' % (-i)
         if f == 'ustr':       # non-ASCII text (encodable in latin-1 / cp1252 as well as utf-8)
@@ -65,6 +70,10 @@ class Ids:
             return x
         if f == 'str':
             return int(x[1:]) if x[0] == 'n' else -int(x[1:])
+        if f == 'sym':
+            if x in SYM:
+                return SYM.index(x)
+            return int(x[1:]) if x[0] == 's' else -int(x[1:])
         if f == 'us':
             if x[:4] not in ('a_n_', 'a_m_'):
                 raise ValueError('node id %r is not one of the ids that were used' % (x,))
